@@ -21,6 +21,11 @@ TRUSTED = [
     "the line ends of the guesser's reader are probed from the running interpreter (str.splitlines), check_valid's rejected "
     "characters by calling it; the way OmenScorer opens its files is read from the source by ast (harness/consts/omen_level.py)",
     "levels produced by smoothing (floor(-ln(..))) are taken as given",
+    "harness/translate_omen_level.py: fail-closed ast translator of find_omen_level and OmenScorer.parse into "
+    "gen/OmenLevel_gen.v (accepted subset and the representation of Python values - ints as Z, strings as code points, "
+    "the trainer / scorer objects as the model's records, dict subscripts as the model's lookups with None = KeyError, "
+    "fuel for the while loop - in its header), and the runtime OmenRt.v it targets (Python slices / negative indices / "
+    "try-except as functions)",
     "guesser level of a string = the target level at which the real MarkovCracker emits it (levels enumerated completely "
     "under a size/time cap; undecided strings are counted, not guessed)",
 ]
@@ -213,6 +218,7 @@ def run(ctx):
             "by_origin": {}, "trainer_level_hist": {}, "unparsable": 0, "guesser_decided": 0, "guesser_undecided": 0,
             "levels_enumerated": 0, "levels_capped": 0, "scorer_loaded": 0, "guesser_loaded": 0}
     seen, nontrivial = set(), 0
+    missing_consts = set()
     kinds = list(ol.KINDS)
     for i in range(n):
         if i in (1, 9) or (i > 30 and i % 40 == 0):
@@ -273,11 +279,10 @@ def run(ctx):
                             "training": cfg["passwords"][:6], "rows": rows[:6]})
         try:
             cases.append(coq_case(T, sc, G, E, rows, consts))
+            case_cfg.append(cfg)
         except KeyError as e:
-            # a constant the model needs could not be extracted from the changed source: the correspondence cannot be
-            # stated (reported as broken below), the direct oracle above still judges the implementation
-            case_errors.add("constant %s not extracted from the source (see the gen obligation)" % e)
-        case_cfg.append(cfg)
+            # a constant of a failed extractor plugin is missing: no correspondence case, the oracle still ran
+            missing_consts.add(str(e))
 
     # ---- correspondence: Coq evaluates the models on the same tables / strings
     per = 6
@@ -291,7 +296,11 @@ def run(ctx):
                ";\n".join(cases[s:s + per]), "].",
                "Eval vm_compute in (failing_codes check_c11 cases)."]
         shards.append(("s%04d" % (s // per), "\n".join(src)))
-    corr = [("cases-could-be-stated", False, "; ".join(sorted(case_errors)))] if case_errors else []
+    import omen_gen_tie
+    corr = [omen_gen_tie.status("omen-level:translator-tie", "gen/OmenLevel_gen.v", "theories/OmenLevelGenProofs.v")]
+    if missing_consts:
+        corr.append(("omen-level:constants", False, "constants missing from gen/Consts_gen.v (extractor plugin failed): %s; "
+                     "no correspondence case could be written" % sorted(missing_consts)))
     for (name, idx, log), s in zip(common.run_case_shards("C11", shards), range(0, len(cases), per)):
         if idx is None:
             corr.append(("omen-level:" + name, False, log[-1200:]))
